@@ -549,6 +549,8 @@ def supervise(check_path, argv, prop, tier, seed):
     crumb = os.path.join(OUT, 'replays', f'.inflight-{prop}-{os.getpid()}.json')
     env = dict(os.environ, VERIF_CHILD='1', VERIF_CRUMB=crumb)
     t0 = time.time()
+    budget = float(os.environ.get('VERIF_BUDGET_S', '0') or 0) or (240.0 if tier == 'quick' else 1500.0)
+    hard = float(os.environ.get('VERIF_HARD_LIMIT_S', '0') or 0) or (budget * 4 + 600)
     child = subprocess.Popen([sys.executable, check_path] + argv, env=env, start_new_session=True)
     hung = None
     try:
@@ -557,6 +559,10 @@ def supervise(check_path, argv, prop, tier, seed):
                 return child.wait(timeout=1.0)
             except subprocess.TimeoutExpired:
                 pass
+            if time.time() - t0 > hard:
+                print(f'INFRA: {prop}: the check did not finish within {hard:.0f}s (no guarded case in flight); stopped',
+                      file=sys.stderr)
+                return 2
             try:
                 c = json.load(open(crumb))
             except (OSError, ValueError):
